@@ -179,7 +179,7 @@ func (c *Client) Connect(o ConnectOpts) int32 {
 		p.WillRetain = o.WillRetain
 	}
 	before := len(c.snapshot())
-	if err := c.Send(p); err != nil {
+	if err := c.SendRaw(EncodeConnect(p)); err != nil {
 		return -1
 	}
 	synctest.Wait()
@@ -337,4 +337,52 @@ func readPacket(r io.Reader) (packet.Packet, error) {
 		return nil, err
 	}
 	return p, nil
+}
+
+
+// EncodeConnect builds CONNECT bytes (MQTT 3.1.1). The codec library's CONNECT encoder clobbers the
+// will / clean-session flags, so the harness encodes this packet itself.
+func EncodeConnect(p *packet.Connect) []byte {
+	lp := func(b []byte) []byte {
+		return append([]byte{byte(len(b) >> 8), byte(len(b))}, b...)
+	}
+	var flags byte
+	if p.Clean {
+		flags |= 0x02
+	}
+	body := append(lp([]byte("MQTT")), 4)
+	var tail []byte
+	tail = append(tail, lp(p.ClientId)...)
+	if len(p.WillTopic) > 0 {
+		flags |= 0x04 | byte(p.WillQos&3)<<3
+		if p.WillRetain {
+			flags |= 0x20
+		}
+		tail = append(tail, lp(p.WillTopic)...)
+		tail = append(tail, lp(p.WillPayload)...)
+	}
+	if len(p.Username) > 0 {
+		flags |= 0x80
+		tail = append(tail, lp(p.Username)...)
+	}
+	if len(p.Password) > 0 {
+		flags |= 0x40
+		tail = append(tail, lp(p.Password)...)
+	}
+	body = append(body, flags, byte(p.KeepaliveTimer>>8), byte(p.KeepaliveTimer))
+	body = append(body, tail...)
+	out := []byte{0x10}
+	n := len(body)
+	for {
+		d := byte(n % 128)
+		n /= 128
+		if n > 0 {
+			d |= 0x80
+		}
+		out = append(out, d)
+		if n == 0 {
+			break
+		}
+	}
+	return append(out, body...)
 }
